@@ -292,8 +292,8 @@ def forbidden_reason(s):
     if "private" in rd: return "resp-private"
     if "no-store" in qd: return "req-no-store"
     if s["auth"]:
-        smax = rd.get("s-maxage")
-        if not ("public" in rd or "must-revalidate" in rd or (smax is not None and smax.isdigit())):
+        # the property's exception, literally: a public, must-revalidate or s-maxage element is present
+        if not ("public" in rd or "must-revalidate" in rd or "s-maxage" in rd):
             return "auth"
     return None
 
